@@ -620,7 +620,11 @@ class Spectrum:
         value = value.astype(np.result_type(value.dtype, float))
 
         if method == 'simps':
-            result = scipy.integrate.simpson(x=wave, y=value)
+            if wave.size == 0:
+                # no sample inside the bounds (as the trapezoid rule returns)
+                result = 0.0
+            else:
+                result = scipy.integrate.simpson(x=wave, y=value)
         elif method == 'trapz':
             result = np.trapz(value, wave)
         else:
